@@ -276,6 +276,7 @@ import math
 # (header text, expected seconds or None=absent, "bad"=malformed); the fake wall clock is 1_700_000_000
 RETRY_AFTER = [(None, None), ("0", 0), ("7", 7), (" 12 ", 12), ("abc", "bad"),
                ("Tue, 14 Nov 2023 22:13:50 GMT", 30), ("Tue, 14 Nov 2023 22:13:00 GMT", 0)]
+# (the last one lies 20 s in the past: no wait)
 
 
 def _sleep_body(factor, bmax, nred, jitter, rnd, ra_i, respect, has_resp):
@@ -330,6 +331,41 @@ def _sleep_body(factor, bmax, nred, jitter, rnd, ra_i, respect, has_resp):
         E.uninstall_clock()
 
 
+def _ra_date_body(now, status_i):
+    """Retry-After given as an HTTP-date, the wall clock ANY integer instant: the sleep is the (non-negative) distance to that
+    date — a date that has already passed means no wait, never a negative or failing sleep."""
+    fake = E.install_clock()
+    fake.wall = now
+    try:
+        r = Retry(total=3)
+        resp = FakeResponse((503, 429, 413)[status_i], retry_after="Tue, 14 Nov 2023 22:13:20 GMT")     # = 1_700_000_000
+        try:
+            r.sleep(resp)
+        except Exception as e:
+            return _fail("clock %r: sleep raised %r" % (now, e))
+        want = 1_700_000_000 - now
+        if want > 0:
+            if fake.sleeps != [want]:
+                return _fail("clock %r: slept %r, the date is %r s away" % (now, fake.sleeps, want))
+            mark("future date")
+        else:
+            if any(s != 0 for s in fake.sleeps):
+                return _fail("clock %r (date passed %r s ago): slept %r" % (now, -want, fake.sleeps))
+            mark("past date")
+        return True
+    finally:
+        E.uninstall_clock()
+
+
+def c04_retry_after_date(now: int, status_i: int) -> bool:
+    """
+    pre: 0 <= status_i <= 2
+    pre: 0 <= now <= 4_000_000_000
+    post: _
+    """
+    return run(_ra_date_body, now, status_i)
+
+
 def c04_sleep(factor: float, bmax: float, nred: bool, jitter: float, rnd: float, ra_i: int,
               respect: bool, has_resp: bool) -> bool:
     """
@@ -356,10 +392,10 @@ from urllib3.exceptions import (HTTPError, MaxRetryError, ProtocolError, ReadTim
                                 ProxyError as _ProxyError, ResponseError)
 
 OUTCOMES = ["ok", "connect_refused", "connect_timeout", "reset_after_send", "eof_after_send", "garbage_status", "read_timeout",
-            "503_forcelisted", "503_retry_after", "413_retry_after", "500_plain"]
+            "503_forcelisted", "503_retry_after", "413_retry_after", "500_plain", "500_forcelisted_retry_after"]
 CONNECT_CLASS = ("connect_refused", "connect_timeout")
 READ_CLASS = ("reset_after_send", "eof_after_send", "garbage_status", "read_timeout")
-STATUS_RETRY = ("503_forcelisted", "503_retry_after", "413_retry_after")
+STATUS_RETRY = ("503_forcelisted", "503_retry_after", "413_retry_after", "500_forcelisted_retry_after")
 TOPOS = ["direct", "forwarding proxy", "tunnel via http proxy"]
 METHODS_U = ["GET", "POST", "PUT", "PATCH", "DELETE"]
 IDEMPOTENT = {"GET", "PUT", "DELETE", "HEAD", "OPTIONS", "TRACE"}
@@ -430,6 +466,9 @@ class AttemptPeer(N.BaseHandler):
                 st["queue"].append(N.response_bytes(413, "X", headers=[("Retry-After", "1")], body=b""))
             elif o == "500_plain":
                 st["queue"].append(N.response_bytes(500, "X", body=b""))
+            elif o == "500_forcelisted_retry_after":
+                # retried because the caller force-lists 500 — but Retry-After is documented for 413/429/503 only
+                st["queue"].append(N.response_bytes(500, "X", headers=[("Retry-After", "7")], body=b""))
             else:
                 st["queue"].append(N.response_bytes(200, "OK", body=b"ok"))
 
@@ -487,6 +526,8 @@ def _attempts(topo, mi, hist, rkind):
     """rkind: 0 retries=False; 1 Retry(total=1); 2 Retry(total=2, connect=1, read=1, status=1, other=1); 3 Retry(total=3, read=0)
     4 Retry(total=5, allowed_methods=None [retry every method]); 5 integer 2"""
     method = METHODS_U[mi]
+    if "500_plain" in hist and "500_forcelisted_retry_after" in hist:
+        return True        # one policy cannot both force-list 500 and leave it alone
     script = list(hist) + ["ok"]
     peer = AttemptPeer(script, topo)
     netw = N.install(peer)
@@ -505,7 +546,8 @@ def _attempts(topo, mi, hist, rkind):
         elif rkind == 5:
             retries = 2
         else:
-            retries = SpyRetry(status_forcelist=[503] if "503_forcelisted" in hist else None, backoff_factor=0, **mk[rkind])
+            fl = ([503] if "503_forcelisted" in hist else []) + ([500] if "500_forcelisted_retry_after" in hist else [])
+            retries = SpyRetry(status_forcelist=fl or None, backoff_factor=0, **mk[rkind])
         body = b"x=1" if method in ("POST", "PUT", "PATCH") else None
         exc = None
         resp = None
@@ -543,7 +585,9 @@ def _attempts(topo, mi, hist, rkind):
             mark("retries=False")
             return True
         # (2) a request whose method is outside allowed_methods is never re-sent after it may have reached the server
-        f1 = (topo in (1, 2) and first in READ_CLASS and SpyRetry.LOG and isinstance(SpyRetry.LOG[0]["error"], _ProxyError))
+        # F1 only concerns faults on which http.client itself closes the connection (reset, EOF): that close() resets the flag
+        F1_FAULTS = ("reset_after_send", "eof_after_send")
+        f1 = (topo in (1, 2) and first in F1_FAULTS and SpyRetry.LOG and isinstance(SpyRetry.LOG[0]["error"], _ProxyError))
         if not allowed and first in READ_CLASS + STATUS_RETRY:
             if f1 and known("F1"):
                 return True       # everything that follows (re-send, MaxRetryError instead of the original error) is F1
@@ -552,7 +596,7 @@ def _attempts(topo, mi, hist, rkind):
                 log = SpyRetry.LOG
                 # known finding F1: behind a proxy http.client closes the connection on a read-phase error, which resets the
                 # has-connected-to-proxy flag; urlopen then reports the error as ProxyError and counts it under `other`
-                if topo in (1, 2) and first in READ_CLASS and log and isinstance(log[0]["error"], _ProxyError) and known("F1"):
+                if topo in (1, 2) and first in F1_FAULTS and log and isinstance(log[0]["error"], _ProxyError) and known("F1"):
                     return True
                 return _fail(why)
             if first in READ_CLASS:
@@ -581,11 +625,11 @@ def _attempts(topo, mi, hist, rkind):
                 elif o in READ_CLASS:
                     want = ReadTimeoutError if o == "read_timeout" else ProtocolError
                     if not isinstance(err, want):
-                        if topo in (1, 2) and isinstance(err, _ProxyError) and known("F1"):
+                        if topo in (1, 2) and o in ("reset_after_send", "eof_after_send") and isinstance(err, _ProxyError) and known("F1"):
                             return True
                         return _fail("%s after the request was written must be %s, got %r (topology %s)" % (o, want.__name__, err, TOPOS[topo]))
                 else:
-                    if err is not None or st not in (503, 413):
+                    if err is not None or st not in (503, 413, 500):
                         return _fail("%s: increment(error=%r, status=%r)" % (o, err, st))
                 k += 1
                 # did the budget allow another attempt?
@@ -596,6 +640,11 @@ def _attempts(topo, mi, hist, rkind):
             return _fail("unexpected failure %r" % (exc,))
         # sleeps: only Retry-After values (statuses 413/503 with the header) or backoff 0
         for sl in clock.sleeps:
+            if sl == 7 and "500_forcelisted_retry_after" in hist:
+                # known finding F30: the Retry-After of ANY retried response is honoured, not only of 413/429/503
+                if known("F30"):
+                    continue
+                return _fail("slept %r: the Retry-After of a force-listed 500 was honoured (documented for 413/429/503 only)" % (sl,))
             if sl not in (0, 1, 2) or sl < 0:
                 return _fail("slept %r" % (sl,))
             if sl in (1, 2) and not any(o in ("503_retry_after", "413_retry_after") for o in hist):
@@ -654,6 +703,7 @@ def JOBS(tier):
                          "part": {"topos": [topo], "methods": [0, 1, 2] if quick else [0, 1, 2, 3, 4], "outcomes": OUTCOMES,
                                   "rkinds": [rk], "three": not quick}})
     jobs.append({"func": "c04_from_int", "timeout": t, "part": {}})
+    jobs.append({"func": "c04_retry_after_date", "timeout": t, "part": {}})
     jobs.append({"func": "c04_is_retry", "timeout": t, "part": {}})
     for n in ((0, 1, 2, 4) if quick else range(0, 13)):
         for (jit, rv) in ([(0.0, 0.0), (0.25, 0.5)] if quick else [(0.0, 0.0), (0.25, 0.5), (8.0, 0.9999999), (0.5, 0.0)]):
